@@ -1,23 +1,47 @@
+# ASan options of ./check plus a 16 MB quarantine: every evaluation builds and frees a Stepper, and
+# with the default 256 MB quarantine the freed memory is never reused (measured 6x slower, half
+# of it page-fault system time).  Use-after-free within the last 16 MB of frees is still caught.
+_ASAN = ("halt_on_error=0:detect_leaks=0:abort_on_error=0:handle_abort=0:allocator_may_return_null=1:"
+         "detect_stack_use_after_return=0:quarantine_size_mb=16")
 CHECK = {
     "level": "fault_enumeration",
     "rule": ("every explored event history (E1: all interaction-outcome sequences with <= 2/3 deviations "
              "over the scripted menu, which includes requests of 1, 2 and 3 secondaries) is run at EVERY "
              "capacity of the lattice, so the fault 'first allocation that does not fit' lands at every "
              "step where it can: part secondary: stack capacity {0..7} x slots {1,2,3} (+ a stopped "
-             "positron whose only at-rest outcome needs 2 secondaries, capacity 1 and 2); part "
-             "initializer: initializer capacity {1,2,3,4,6} x slots {1,2}, 100 MeV primaries that "
-             "multiply, plus too-many-primaries insertion. non-trivial = execution with >= 1 deviation "
-             "(secondary) / execution in which the overflow was reported (initializer)."),
+             "positron whose only at-rest outcome needs 2 secondaries, capacity 1 and 2); roots = one "
+             "primary per event (track order none; 100 MeV primaries from the centre also init_charge "
+             "and reindex_status) and, for slots >= 2, two / three 100 MeV primaries in the first call "
+             "under all three orders, so that several tracks of one step share the stack; every "
+             "allocation is judged by the sequential model of the stack (request n succeeds iff used + "
+             "n <= capacity). part initializer: initializer capacity {1,2,3,4,6} x slots {1,2} x track "
+             "order {none, init_charge, reindex_status}, 100 MeV primaries that multiply; a call must "
+             "throw RuntimeError exactly when the ledger of pending initializers exceeds the capacity "
+             "(exact fit must pass); primaries at the limit into the empty queue (Q accepted, Q+1 "
+             "rejected) and, for every history with one deviation, into the pending queue (Q-q "
+             "accepted, Q-q+1 rejected); after every rejection the SAME stepper is reset and must "
+             "reproduce a reference event that uses the slots and the queue. non-trivial = execution "
+             "with >= 1 deviation (secondary) / execution in which the overflow was reported "
+             "(initializer)."),
     "assumptions": [
         "AddressSanitizer flavour: heap overflow in the stack / initializer indexing is a violation",
-        "a failed interaction is recognised by the physics-failure step action in the public step stream",
+        "a failed in-flight interaction is recognised by the physics-failure step action in the public "
+        "step stream (checked both ways); a failed at-rest interaction keeps the model's action "
+        "(tagged observation, DESIGN 9.3)",
         "production cuts of the scripted material are known to the harness (gamma 0.02, e+- 0.05 MeV)",
+        "host execution is serial: allocations of one step are served in query order",
+        "the in-place rule used by the initializer ledger (first surviving secondary of an absorbed "
+        "parent takes its slot unless track order is init_charge) is verified on every call that "
+        "returns: queued must equal the ledger",
     ],
-    "bounds": {"quick": {"deviations": 2}, "thorough": {"deviations_secondary": 2, "deviations_initializer": 3}},
+    "bounds": {"quick": {"deviations": 2},
+               "thorough": {"deviations_secondary": 2,
+                            "deviations_secondary_several_primaries_capacity<=3": 3,
+                            "deviations_initializer": 3}},
     "parts": [
-        {"name": "secondary", "harness": "c16_exhaust", "flavour": "asan",
+        {"name": "secondary", "harness": "c16_exhaust", "flavour": "asan", "env": {"ASAN_OPTIONS": _ASAN},
          "shards": {"quick": 16, "thorough": 16}, "deadline": {"quick": 100, "thorough": 1200}},
-        {"name": "initializer", "harness": "c16_exhaust", "flavour": "asan",
+        {"name": "initializer", "harness": "c16_exhaust", "flavour": "asan", "env": {"ASAN_OPTIONS": _ASAN},
          "shards": {"quick": 16, "thorough": 16}, "deadline": {"quick": 60, "thorough": 600}},
     ],
 }
@@ -29,7 +53,8 @@ META = {
     "text": ("The exhaustion point is enumerated rather than sampled: each history of the exploration is "
              "repeated for every capacity, so an allocation failure is forced at every interaction / every "
              "step where it can first occur, and the safety (explicit failure, nothing partial, track "
-             "continues, reported error before any out-of-bounds write) and liveness (event completes "
-             "with exact balance, state reusable after reset) clauses are checked on each."),
+             "continues, reported error before any out-of-bounds write and only when the capacity is "
+             "really exceeded) and liveness (event completes with exact balance, state reusable after "
+             "reset) clauses are checked on each."),
     "note": "Trusts ASan for memory safety and the scripted physics for the request sizes.",
 }
